@@ -90,9 +90,15 @@ func deliverB(n *vnode.Node, sc scenario, bt *built) {
 		}
 	}
 	if _, err, pan := n.InsertChain(vnode.CloneBatch(side)); err != nil || pan != nil {
-		panic(fmt.Sprintf("branch B: %v %v", err, pan))
+		// the node that never crashed does not get to the state every crashed-and-restarted node is measured against
+		panic(crashFreeFailure{fmt.Sprintf("the longer, valid competing branch is refused: err=%v panic=%v", err, pan)})
 	}
 }
+
+// crashFreeFailure: the reference run itself (no crash anywhere) fails to switch to the competing branch. This is an
+// observation about the code under test ("continuing with a competing momentum leads to the state a node without the
+// crash reaches" has no such state), reported as a violation, not a harness failure.
+type crashFreeFailure struct{ msg string }
 
 func scenarios(tier string) []scenario {
 	M := ops.Op{K: "M"}
@@ -283,6 +289,16 @@ func checkImage(c *xs.Ctx, r *xs.Result, sc scenario, bt *built, img image, boun
 }
 
 func runScenario(c *xs.Ctx, r *xs.Result, sc scenario, only int) {
+	defer func() {
+		if p := recover(); p != nil {
+			if f, ok := p.(crashFreeFailure); ok {
+				db.VerifWriteHook = nil
+				r.Violate("C08:node-without-a-crash-cannot-continue-with-the-competing-branch", fmt.Sprintf("scenario %q, no crash at all: %s", sc.Name, f.msg), map[string]interface{}{"scenario": sc.Name, "write": -1})
+				return
+			}
+			panic(p)
+		}
+	}()
 	bt := build(c, sc)
 	imgRoot := c.TempDir()
 	var images []image
